@@ -875,7 +875,33 @@ std::size_t CppCheck::calculateHash(const Preprocessor& preprocessor, const std:
         toolinfo << a.args;
     }
     toolinfo << mSettings.premiumArgs;
-    // TODO: do we need to add more options?
+    // options that change the analysis results must change the hash
+    toolinfo << (mSettings.certainty.isEnabled(Certainty::inconclusive) ? 'i' : ' ');
+    for (const std::string &undef : mSettings.userUndefs)
+        toolinfo << undef << ';';
+    toolinfo << '|';
+    for (const std::string &path : mSettings.includePaths)
+        toolinfo << path << ';';
+    toolinfo << '|';
+    for (const std::string &lib : mSettings.libraries)
+        toolinfo << lib << ';';
+    toolinfo << '|';
+    toolinfo << std::to_string(static_cast<std::uint8_t>(mSettings.standards.c)) << ' ';
+    toolinfo << std::to_string(static_cast<std::uint8_t>(mSettings.standards.cpp)) << ' ';
+    toolinfo << std::to_string(static_cast<std::uint8_t>(mSettings.platform.type)) << ' ';
+    toolinfo << std::to_string(mSettings.platform.char_bit) << ' ';
+    toolinfo << std::to_string(mSettings.platform.sizeof_bool) << ' ';
+    toolinfo << std::to_string(mSettings.platform.sizeof_short) << ' ';
+    toolinfo << std::to_string(mSettings.platform.sizeof_int) << ' ';
+    toolinfo << std::to_string(mSettings.platform.sizeof_long) << ' ';
+    toolinfo << std::to_string(mSettings.platform.sizeof_long_long) << ' ';
+    toolinfo << std::to_string(mSettings.platform.sizeof_float) << ' ';
+    toolinfo << std::to_string(mSettings.platform.sizeof_double) << ' ';
+    toolinfo << std::to_string(mSettings.platform.sizeof_long_double) << ' ';
+    toolinfo << std::to_string(mSettings.platform.sizeof_wchar_t) << ' ';
+    toolinfo << std::to_string(mSettings.platform.sizeof_size_t) << ' ';
+    toolinfo << std::to_string(mSettings.platform.sizeof_pointer) << ' ';
+    toolinfo << (mSettings.platform.defaultSign == 'u' ? 'u' : (mSettings.platform.defaultSign == 's' ? 's' : ' '));
     mSuppressions.nomsg.dump(toolinfo, filePath);
     return preprocessor.calculateHash(toolinfo.str());
 }
